@@ -105,7 +105,7 @@ EXTRA = {
  'C13': ' HarnessC13Highlight: the snippet colouriser on every line of <= 4 characters over its 10 scanner-relevant characters. HarnessC13CodegenFailure: the native code generation phase under environment stubs (mkdir, write, embedded QBE exit code, linker fail by free choice): an error return implies an error diagnostic and the gen directory is removed again. HarnessC13Imports: 16 import forms (missing path, bad alias, unknown module, self import, duplicates, stray tokens) before / after a declaration on a two-module project.',
  'C14': ' HarnessC14LitIDs now runs the REAL lexer and parser on two modules as two logical threads (delay bound 2): the IDs of function / struct / interface / enum literals equal those of a solitary parse. HarnessC14WasmOrder: wasm EmitProgram on three-module programs with same-named functions under both map iteration orders: byte-identical binary.',
  'C15': ' HarnessC15Order: every acyclic graph over 5 modules (6 thorough): the topological order lists each module once, dependencies first.',
- 'C17': ' Also the map-literal constructor ferret_map_from_pairs on 2 (3 thorough) symbolic pairs whose keys may coincide.',
+ 'C17': ' Also the map-literal constructor ferret_map_from_pairs on 2 (3 thorough) symbolic pairs whose keys may coincide; ferret_map_has and the optional-returning lookup ferret_map_get_optional_out (flag byte and payload) against the abstract map; ferret_map_destroy frees every block exactly once (no double free, nothing left allocated).',
  'C18': ' Also whole-value copies of byte-aligned composites of 2, 3, 6, 7 bytes (struct assigned into a fixed-array element, struct wrapped into / read out of an optional, discriminant set / cleared / set).',
  'C19': ' Non-ASCII comment text (2- and 3-byte UTF-8 characters): columns advance by characters, indices by bytes (gap harness and Position.Advance kernel).',
  'C16': ' pow: INIT/STEP/EXIT on the real square-and-multiply loop for all four types (the 128-bit ones through their register ABI). Integer -> decimal text: to_string_ptr on every value of at most 2 (4 thorough) decimal digits incl. negative ones, and one step of the digit extraction (ferret_div_small_limbs) from an arbitrary limb state.',
